@@ -79,10 +79,17 @@ def replay(case):
         # ---- Rayleigh consistency, upper bound, monotonicity (low-rank guess)
         # (eigenvalue, eigentensor) must be a consistent pair for ANY target, also when later sweeps move away from it
         for solver, sigma in (('eigh', w[0] - 1.0), ('eigh', 0.5 * (w[0] + w[-1])), ('eig', 0.5 * (w[0] + w[-1]) + 0.123 * width)):
-            for rep in (2, 4):
+            dist = []
+            for rep in (1, 2, 4):
                 lam, t, it = evp.als(A, x0, repeats=rep, solver=solver, sigma=sigma, **kw)
                 if not consistent(lam, t, 'als:%s:anytarget' % solver):
                     break
+                dist.append(abs(lam - sigma))
+            else:
+                # the reported eigenvalue is the best one seen so far: more sweeps never report one farther from the target
+                if any(dist[k + 1] > dist[k] + 1e-9 * scale for k in range(2)):
+                    out.append(('als:%s:anytarget:monotone:%s' % (solver, kind), 'distance of the reported eigenvalue to the target %r grows '
+                                'with the sweeps: %r' % (sigma, dist)))
         for solver, sigma in (('eigh', w[-1] + 1.0), ('eig', w[-1] + 1.0), ('eig', w[0] - 1.0)):
             tag = 'als:%s' % solver
             dist = []
